@@ -1708,6 +1708,9 @@ func buildStubs() map[string]stubFn {
 			panic(engineErr("harness package has no vpProcess"))
 		}
 		ex.effect()
+		if ex.threads != nil {
+			ex.threads.yield() // an RPC boundary is a scheduling point
+		}
 		err := ex.callSSA(c, vp, []Value{ex.mkStr(addr), a[1], a[2]}, nil)
 		// go-redis stores the error in the command as well
 		cmd := a[2].(IfaceV)
